@@ -51,6 +51,9 @@ BadEvent(CT, ev) ==
          {<<cl, Shape(CT, ev)>> : cl \in FindSubtypesBad(CT, ev.T, Rng(ev.res), ev.include_self, ev.concrete_only, ev.self_in)}
     [] ev.kind = "find_irrelevant" ->
          {<<cl, IF ev.T.k = "P" THEN "Primitive"
+                \* related only through the implicit rule "every type is below the top type" (the implementation knows the top type
+                \* only where it is declared as a supertype)
+                ELSE IF \A r \in Related(CT, ev.T, Rng(ev.res)) : ~Sub(CT, AsType(CT, r), Hat(ev.T)) /\ ~Sub(CT, Hat(ev.T), AsType(CT, r)) THEN "ImplicitTop"
                 ELSE IF TextualDiffers(CT, ev.T) \/ \E r \in Related(CT, ev.T, Rng(ev.res)) : TextualDiffers(CT, r) THEN "TextualSupertypes"
                 ELSE "plain">> : cl \in FindIrrelevantBad(CT, ev.T, Rng(ev.res), ev.saw_none)}
     [] ev.kind = "instantiate" ->
